@@ -2,7 +2,9 @@
 // GenerateCode on a parsed spec) is run in child processes (utils.TypeRegistry is a process global) on a project directory
 // that holds foreign files (go.mod, hand-written .go beside generated code, data files, sibling directories, a symbolic
 // link, owned-looking files OUTSIDE the output directory): generate; regenerate; regenerate a changed schema set; failing
-// generations with an obstacle at every stage.  After EVERY run, successful or failed:
+// generations with an obstacle at every stage; "decorate" steps plant foreign files named like decorations of the generated
+// names (<name>.tmp, <name>~, .<name>.swp, #<name>#, <name>.tmp/, ... - see decorate) before the first generation (names
+// predicted from the schema set) and after it (every generated file and directory).  After EVERY run, successful or failed:
 //   - nothing outside the output directory changed at all;
 //   - every file below the output directory whose name the generator does not own is still there, byte-identical;
 //   - every new file has a name the generator owns;
@@ -197,7 +199,8 @@ func segPath(seg string) string { return strings.ReplaceAll(seg, ".", "/") }
 // ---------------------------------------------------------------------------------------------- histories
 
 type Step struct {
-	Op       string   `json:"op"` // gen | put | rm
+	Op       string   `json:"op"`                // gen | put | rm | decorate
+	Variant  int      `json:"variant,omitempty"` // decorate: which decorations are directories (0: none but .d; 1: .tmp and .bak)
 	Spec     *genSpec `json:"spec,omitempty"`
 	WithRoot bool     `json:"with_package_root,omitempty"` // v2: generateWithPackageRoot
 	Dot      bool     `json:"dot,omitempty"`               // the generator runs inside the output directory and is given "."
@@ -374,6 +377,92 @@ func golden(m *module, st *Step, custom bool) *goldenEntry {
 	return g
 }
 
+// decorate plants FOREIGN files whose names are decorations of the names of generated files and of the directories that
+// hold them, right next to them: <name>.tmp, <name>~, <name>.bak, <name>.orig, <name>.new, <name>.old, <name>.lock,
+// <name>.part, .<name>.swp, #<name>#, _<name>, <name>.d/ (a directory with a file inside; variant 1: <name>.tmp/ and
+// <name>.bak/ are directories too).  With st.Spec == nil the names are those present below the output directory now (after
+// a generation); with st.Spec != nil they are the names a generation of that schema set WILL produce (taken from the
+// generation into a fresh directory), planted beforehand.  None of the planted names is owned (checked), nothing that
+// exists is overwritten.  Returns the number of files planted.
+func decorate(m *module, outDir string, st *Step) int {
+	files, dirs := map[string]string{}, map[string]bool{}
+	if st.Spec != nil {
+		g := golden(m, st, false)
+		for rel := range g.files {
+			files[rel] = ""
+			for d := filepath.Dir(rel); d != "."; d = filepath.Dir(d) {
+				dirs[d] = true
+			}
+		}
+	} else {
+		snap, ok := snapshot(outDir)
+		if !ok {
+			return 0
+		}
+		all := map[string]string{}
+		flatten("", snap, all, dirs)
+		for rel, c := range all {
+			if owned(m, rel) && strings.HasPrefix(c, "F:") {
+				files[rel] = ""
+			}
+		}
+		for d := range dirs { // decorate only directories that lead to generated files
+			keep := false
+			for rel := range files {
+				if strings.HasPrefix(rel, d+"/") {
+					keep = true
+					break
+				}
+			}
+			if !keep {
+				delete(dirs, d)
+			}
+		}
+	}
+	var names []string
+	for rel := range files {
+		names = append(names, rel)
+	}
+	for d := range dirs {
+		names = append(names, d)
+	}
+	sort.Strings(names)
+	type deco struct {
+		pre, suf string
+		dir      bool
+	}
+	decos := []deco{{"", ".tmp", st.Variant == 1}, {"", "~", false}, {"", ".bak", st.Variant == 1}, {"", ".orig", false}, {"", ".new", false},
+		{"", ".old", false}, {"", ".lock", false}, {"", ".part", false}, {".", ".swp", false}, {"#", "#", false}, {"_", "", false}, {"", ".d", true}}
+	n := 0
+	for _, rel := range names {
+		dir, base := filepath.Dir(rel), filepath.Base(rel)
+		for _, d := range decos {
+			name := d.pre + base + d.suf
+			if owned(m, name) {
+				continue
+			}
+			p := filepath.Join(outDir, dir, name)
+			if _, err := os.Lstat(p); err == nil {
+				continue
+			}
+			if os.MkdirAll(filepath.Dir(p), 0o755) != nil {
+				continue
+			}
+			content := []byte("user file " + name + " next to " + rel)
+			if d.dir {
+				if os.Mkdir(p, 0o755) != nil {
+					continue
+				}
+				p = filepath.Join(p, "keep"+filepath.Ext(base))
+			}
+			if os.WriteFile(p, content, 0o644) == nil {
+				n++
+			}
+		}
+	}
+	return n
+}
+
 func placeObstacle(proj string, st *Step) error {
 	p := filepath.Join(proj, st.Path)
 	if err := os.MkdirAll(filepath.Dir(p), 0o755); err != nil {
@@ -455,6 +544,10 @@ func runHistory(m *module, h *History) *histResult {
 			} else {
 				hr.statuses = append(hr.statuses, childResult{Status: "-"})
 			}
+		case "decorate":
+			n := decorate(m, outDir, st)
+			hr.statuses = append(hr.statuses, childResult{Status: "-", Detail: fmt.Sprintf("%d foreign files planted", n)})
+			hr.counts = append(hr.counts, "history:decorate")
 		case "rm":
 			p := filepath.Join(proj, st.Path)
 			os.Chmod(p, 0o755)
@@ -636,9 +729,14 @@ func histories(thorough bool, r *hx.Rand) (out []struct {
 			s1 := &genSpec{Segs: []string{seg}, Root: defaultRoot}
 			s2 := &genSpec{Segs: []string{"other"}, Billing: true, Root: defaultRoot}
 			h := &History{Name: "regenerate:ns=" + seg, Out: outRel, Initial: projectTree(m, outRel, seg)}
-			h.Steps = []Step{gen(s1, "ok"), gen(s1, "ok"), gen(s2, "ok")}
+			// decorations of the predictable names are planted before the first generation (every other history) and
+			// decorations of every generated name after it
+			h.Steps = []Step{gen(s1, "ok"), {Op: "decorate", Variant: si % 2}, gen(s1, "ok"), gen(s2, "ok")}
 			if si%2 == 1 {
-				h.Steps[1].Dot = true
+				h.Steps[2].Dot = true
+			}
+			if (si/2)%2 == 0 {
+				h.Steps = append([]Step{{Op: "decorate", Spec: s1, Variant: si % 2}}, h.Steps...)
 			}
 			{
 				h.Steps = append(h.Steps, gen(s1, "ok"), Step{Op: "put", Path: filepath.Join(outRel, "com/acme/plain/more_helpers.go"), Content: "package plain"}, gen(s1, "ok"))
@@ -652,7 +750,8 @@ func histories(thorough bool, r *hx.Rand) (out []struct {
 				h := &History{Name: "regenerate:with-package-root=" + root, Out: "gen", Initial: projectTree(m, "gen", "plainpkg")}
 				g := gen(s1, "ok")
 				g.WithRoot = true
-				h.Steps = []Step{g, g}
+				pre := Step{Op: "decorate", Spec: s1, WithRoot: true}
+				h.Steps = []Step{pre, g, {Op: "decorate", Variant: 1}, g}
 				add(m, h)
 			}
 		}
@@ -696,7 +795,7 @@ func histories(thorough bool, r *hx.Rand) (out []struct {
 			if ob.custom {
 				h.Initial = mergeNodes(append(h.Initial, nestIn(outRel, "com/acme/tr", &Node{Name: "Stamp.go", Content: stampGo})))
 			}
-			h.Steps = []Step{gen(first, "ok")}
+			h.Steps = []Step{gen(first, "ok"), {Op: "decorate", Variant: oi % 2}}
 			if ob.path != "" {
 				h.Steps = append(h.Steps, Step{Op: "put", Path: filepath.Join(outRel, ob.path), Dir: ob.dir, Content: "user data " + ob.name, Mode: ob.mode})
 			}
@@ -757,7 +856,9 @@ func histories(thorough bool, r *hx.Rand) (out []struct {
 				placed := map[string]bool{}
 				cands := []obstacle{obs[0], obs[1], obs[2], obs[3]}
 				for n := 0; n < 7; n++ {
-					switch r.Intn(4) {
+					switch r.Intn(5) {
+					case 4:
+						h.Steps = append(h.Steps, Step{Op: "decorate", Variant: r.Intn(2)})
 					case 0:
 						ob := cands[r.Intn(len(cands))]
 						if !placed[ob.path] {
